@@ -418,7 +418,7 @@ func checkC20(c *Ctx) {
 	exe, _ := os.Executable()
 	nh := c.pick(90, 3000)
 	ne := c.pick(36, 600)
-	var fixed func(root, anchor string, pool []string) (steps []c20Step, dirs []string, auto bool)
+	fixed := map[string]func(root, anchor string, pool []string) (steps []c20Step, dirs []string, auto bool){}
 	var runOnce func(cs *Case, exhaustAt int, exhaustToEnd bool, exhaustMode string, evaluateAnyway bool) int
 	// run repeats a history whose child process met a shortage of inotify instances
 	// that the script did not inject (other processes of this user hold them): the
@@ -511,10 +511,10 @@ func checkC20(c *Ctx) {
 		}
 		exhausted := false
 		held := false
-		if fixed != nil && strings.HasPrefix(cs.Name, "cat:") {
+		if f := fixed[cs.Name]; f != nil {
 			// a hand-written history replaces the generated reconfigurations
 			var fs []c20Step
-			fs, curDirs, curAuto = fixed(root, anchor, pool)
+			fs, curDirs, curAuto = f(root, anchor, pool)
 			steps = append(steps[:2:2], fs...)
 			nconf = 0
 			useDefault = false
@@ -860,7 +860,7 @@ func checkC20(c *Ctx) {
 	}
 	// catalogue: the old watcher goroutine, held at an event across a Configure,
 	// continues afterwards with the directory-error map of the old configuration
-	fixed = func(root, anchor string, pool []string) ([]c20Step, []string, bool) {
+	fixed["cat:held-watcher-across-configure"] = func(root, anchor string, pool []string) ([]c20Step, []string, bool) {
 		late := pool[3]
 		os.RemoveAll(filepath.Dir(late))
 		dirs := []string{anchor, late}
@@ -874,7 +874,23 @@ func checkC20(c *Ctx) {
 			{Op: "release"},
 		}, dirs, true
 	}
+	// catalogue: a cache set up during a shortage on directories that hold nothing
+	// (empty, missing): there is nothing to load, yet it has to keep looking, as a
+	// Spec written later must show up
+	for _, how := range []string{"new", "manual-then-auto"} {
+		how := how
+		fixed["cat:shortage-on-empty-directories:"+how] = func(root, anchor string, pool []string) ([]c20Step, []string, bool) {
+			emptyA, emptyB := filepath.Join(root, "empty-a"), filepath.Join(root, "not-there", "empty-b")
+			os.MkdirAll(emptyA, 0o755)
+			dirs := []string{anchor, emptyA, emptyB}
+			if how == "new" {
+				return []c20Step{{Op: "exhaust-begin", Mode: "fill"}, {Op: "new", Dirs: dirs, Auto: boolp(true)}, {Op: "query"}, {Op: "exhaust-end"}, {Op: "query"}}, dirs, true
+			}
+			return []c20Step{{Op: "new", Dirs: dirs, Auto: boolp(false)}, {Op: "exhaust-begin", Mode: "fill"}, {Op: "configure", Auto: boolp(true)}, {Op: "query"}, {Op: "exhaust-end"}, {Op: "query"}}, dirs, true
+		}
+	}
 	c.RunNamed([]string{"cat:held-watcher-across-configure"}, 1, func(cs *Case) { run(cs, -1, false, "") })
+	c.RunNamed([]string{"cat:shortage-on-empty-directories:new", "cat:shortage-on-empty-directories:manual-then-auto"}, 2, func(cs *Case) { run(cs, 0, false, "fill") })
 	c.RunCases("hist", nh, 8, func(cs *Case) { run(cs, -1, false, "") })
 	c.RunCases("exhaust", ne, 8, func(cs *Case) {
 		var i int
